@@ -140,6 +140,10 @@ inline const std::map<std::string, std::string> &poolTexts()
         {"imp_ok", importing("ok.cellml")},
         {"imp_units", importing("ok.cellml", "units")},
         {"imp_tree", importing("tree.cellml")},
+        // one identifier carried by two items, one carried by a single item
+        {"dupids",
+         "<?xml version=\"1.0\" encoding=\"UTF-8\"?>\n<model xmlns=\"" NS20 "\" name=\"dupids\" id=\"dup\">\n"
+         "  <component name=\"c\" id=\"dup\"><variable name=\"x\" units=\"dimensionless\" id=\"uq\"/></component>\n</model>\n"},
         {"imp_nest", importingWithUnits("nest1.cellml")},
         {"imp_missing", importing("missing.cellml")},
         {"imp_noent", importing("ok.cellml", "nosuch")},
